@@ -1065,7 +1065,7 @@ func (vm *VirtualMachine) loadCode(cc *compiler.Code) *code {
 	var c *code
 	rootCompiled := cc.Root()
 	if rootCompiled == cc {
-		c = loadRootCode(cc, vm.globals)
+		c = loadRootCode(cc, vm.loadableGlobals())
 	} else {
 		c = loadChildCode(vm.loadedCode[rootCompiled], cc)
 	}
@@ -1074,6 +1074,23 @@ func (vm *VirtualMachine) loadCode(cc *compiler.Code) *code {
 	defer vm.cloneMutex.Unlock()
 	vm.loadedCode[cc] = c
 	return c
+}
+
+// loadableGlobals returns the globals that newly loaded code starts out with.
+// When the current run supplied globals, those are the ones: values that only
+// an earlier run on this VM supplied are not handed to code that declares a
+// global of the same name itself.
+func (vm *VirtualMachine) loadableGlobals() map[string]object.Object {
+	if len(vm.currentGlobals) == 0 {
+		return vm.globals
+	}
+	globals := make(map[string]object.Object, len(vm.currentGlobals))
+	for name := range vm.currentGlobals {
+		if value, found := vm.globals[name]; found {
+			globals[name] = value
+		}
+	}
+	return globals
 }
 
 // Reloads the main code while preserving global variables. This happens as
